@@ -153,6 +153,12 @@ static const sdef_t defs[] = {
     { "walk_old_tables_during_unlink", 4, { I(1), I(6), I(3), FO(5, 0) }, 3, { 1, 2, 1 }, { { R(6) }, { R(3), R(5) }, { F(1) } } },
     /* 9: DESIGN's full 3-thread scenario */
     { "design_3threads", 1, { I(1) }, 3, { 1, 2, 2 }, { { I(2) }, { F(1), R(1) }, { I(3), F(2) } } },
+    /* 10: keys 2 and 7 share a bucket of the NEW (2-bit) table only: T1's insert(3) resizes, its insert(7) then updates that bucket while T0's
+     *     insert(2) - which may have looked at the table before the resize - pushes into the same bucket (seeded change C32-1: bucket index
+     *     computed before the read lock => wrong bucket locked, lost update) */
+    { "inserts_meet_in_new_bucket", 1, { I(1) }, 2, { 2, 2 }, { { I(2), F(7) }, { I(3), I(7) } } },
+    /* 11: the same with three threads (resizer, and two inserters into one new bucket) */
+    { "inserts_meet_in_new_bucket_3t", 1, { I(1) }, 3, { 1, 1, 1 }, { { I(2) }, { I(3) }, { I(7) } } },
 };
 #define NDEFS ((int)(sizeof(defs) / sizeof(defs[0])))
 static const sdef_t *cur_def;
@@ -261,12 +267,12 @@ static void run_def(const sdef_t *d)
 }
 
 #define RUNFN(i) static void run_##i(void) { run_def(&defs[i]); }
-RUNFN(0) RUNFN(1) RUNFN(2) RUNFN(3) RUNFN(4) RUNFN(5) RUNFN(6) RUNFN(7) RUNFN(8) RUNFN(9)
+RUNFN(0) RUNFN(1) RUNFN(2) RUNFN(3) RUNFN(4) RUNFN(5) RUNFN(6) RUNFN(7) RUNFN(8) RUNFN(9) RUNFN(10) RUNFN(11)
 static cs_scenario_t scenarios[] = {
     { "resize_vs_find_remove", run_0, 0 }, { "resize_vs_insert_find", run_1, 0 }, { "double_overflow", run_2, 0 },
     { "migrate_vs_remove_old", run_3, 0 }, { "migrate_migrate_remove", run_4, 0 }, { "find_or_insert_same_key", run_5, 0 },
     { "find_or_insert_vs_remove", run_6, 0 }, { "two_old_tables_emptied", run_7, 0 }, { "walk_old_tables_during_unlink", run_8, 0 },
-    { "design_3threads", run_9, 0 },
+    { "design_3threads", run_9, 0 }, { "inserts_meet_in_new_bucket", run_10, 0 }, { "inserts_meet_in_new_bucket_3t", run_11, 0 },
 };
 int main(int argc, char **argv)
 {
